@@ -193,6 +193,8 @@ def cmd_check(tier, prop):
         agg.add(res)
         for v in res["violations"]:
             fails.setdefault(v["sig"], (res, v))
+        if os.environ.get("VERIF_STOP_ON_VIOLATION") and any(s not in known_sigs for s in fails):
+            return "stop"
         return None
 
     t0 = time.monotonic()
